@@ -287,6 +287,15 @@ func cmdRun(args []string) int {
 		fmt.Printf("VIOLATION property=%s replay=%s\n", f.Property, f.Path)
 		fmt.Printf("  oracle=%s %s\n", f.Oracle, f.Detail)
 	}
+	if eng == "cosim" && total.Rejected > 0 {
+		// not a violation of this property (its quantifier is over accepted scripts), but worth
+		// seeing: the generator only writes programs the documented grammar accepts
+		msgs := engine.SortedKeys(total.RejectedMsgs)
+		if len(msgs) > 3 {
+			msgs = msgs[:3]
+		}
+		fmt.Printf("NOTE: the compiler rejected %d of %d generated programs (e.g. %q)\n", total.Rejected, total.Programs, msgs)
+	}
 	if *evidence != "" {
 		if err := engine.WriteEvidence(*evidence, *prop, *tier, *seed, n, W, distinct, wall, total, len(fails), *instrReport); err != nil {
 			fmt.Fprintln(os.Stderr, "INFRASTRUCTURE: evidence:", err)
